@@ -20,7 +20,9 @@ theorem EnvOK.weaken {N : NumOps} {β : Inj N} {D D'} {env env' : Env N} (h : En
     (hD : ∀ x ∈ D, x ∈ D') : EnvOK β D' env env' := ⟨h.va, h.loc.weaken hD⟩
 
 /-- the parameters of an evaluation respect the relation -/
-structure POK {N : NumOps} (Q : QRel) (cx : Cx) (call : CallFn N) (ρ : ExtOracle N) : Prop where
+structure POK {N : NumOps} (Q : QRel) (cx : Cx) (call : CallFn N) (ρ : ExtOracle N) (k : Nat) : Prop where
+  /-- the context's assumption on the call handler, the oracle and the level -/
+  cf : cx.CF N ρ k call
   call : CallOK Q cx call
   flat : OracleFlat ρ
 
@@ -31,31 +33,31 @@ def ATargets {N : NumOps} (D : List DName) : ARel N (List (Target N)) :=
 
 def SoundE (Q : QRel) (cx : Cx) (D : List DName) (x y : Expr) : Prop :=
   ∀ (N : NumOps) (call : CallFn N) (ρ : ExtOracle N) (k : Nat) (env env' : Env N) (σ σ' : State N) (β : Inj N),
-    POK Q cx call ρ → SRel Q cx β σ σ' → EnvOK β D env env' →
+    POK Q cx call ρ k → SRel Q cx β σ σ' → EnvOK β D env env' →
       RRel Q cx β AVs (evalE call ρ k env x σ) (evalE call ρ k env' y σ')
 def SoundT (Q : QRel) (cx : Cx) (D : List DName) (x y : Expr) : Prop :=
   ∀ (N : NumOps) (call : CallFn N) (ρ : ExtOracle N) (k : Nat) (env env' : Env N) (σ σ' : State N) (β : Inj N),
-    POK Q cx call ρ → SRel Q cx β σ σ' → EnvOK β D env env' →
+    POK Q cx call ρ k → SRel Q cx β σ σ' → EnvOK β D env env' →
       RRel Q cx β (ATarget D) (evalTarget call ρ k env x σ) (evalTarget call ρ k env' y σ')
 def SoundEs (Q : QRel) (cx : Cx) (D : List DName) (x y : List Expr) : Prop :=
   ∀ (N : NumOps) (call : CallFn N) (ρ : ExtOracle N) (k : Nat) (env env' : Env N) (σ σ' : State N) (β : Inj N),
-    POK Q cx call ρ → SRel Q cx β σ σ' → EnvOK β D env env' →
+    POK Q cx call ρ k → SRel Q cx β σ σ' → EnvOK β D env env' →
       RRel Q cx β AVs (evalEs call ρ k env x σ) (evalEs call ρ k env' y σ')
 def SoundTs (Q : QRel) (cx : Cx) (D : List DName) (x y : List Expr) : Prop :=
   ∀ (N : NumOps) (call : CallFn N) (ρ : ExtOracle N) (k : Nat) (env env' : Env N) (σ σ' : State N) (β : Inj N),
-    POK Q cx call ρ → SRel Q cx β σ σ' → EnvOK β D env env' →
+    POK Q cx call ρ k → SRel Q cx β σ σ' → EnvOK β D env env' →
       RRel Q cx β (ATargets D) (evalTargets call ρ k env x σ) (evalTargets call ρ k env' y σ')
 def SoundElifs (Q : QRel) (cx : Cx) (D : List DName) (x y : List (Expr × Expr)) : Prop :=
   ∀ (N : NumOps) (call : CallFn N) (ρ : ExtOracle N) (k : Nat) (env env' : Env N) (σ σ' : State N) (β : Inj N),
-    POK Q cx call ρ → SRel Q cx β σ σ' → EnvOK β D env env' →
+    POK Q cx call ρ k → SRel Q cx β σ σ' → EnvOK β D env env' →
       RRel Q cx β AOVs (evalElifs call ρ k env x σ) (evalElifs call ρ k env' y σ')
 def SoundEntries (Q : QRel) (cx : Cx) (D : List DName) (x y : List Entry) : Prop :=
   ∀ (N : NumOps) (call : CallFn N) (ρ : ExtOracle N) (k : Nat) (env env' : Env N) (t t' i : Nat) (σ σ' : State N)
-    (β : Inj N), POK Q cx call ρ → SRel Q cx β σ σ' → EnvOK β D env env' → β.t t t' →
+    (β : Inj N), POK Q cx call ρ k → SRel Q cx β σ σ' → EnvOK β D env env' → β.t t t' →
       RRel Q cx β AEq (evalEntries call ρ k env t i x σ) (evalEntries call ρ k env' t' i y σ')
 def SoundSegs (Q : QRel) (cx : Cx) (D : List DName) (x y : List Seg) : Prop :=
   ∀ (N : NumOps) (call : CallFn N) (ρ : ExtOracle N) (k : Nat) (env env' : Env N) (acc : List UInt8)
-    (σ σ' : State N) (β : Inj N), POK Q cx call ρ → SRel Q cx β σ σ' → EnvOK β D env env' →
+    (σ σ' : State N) (β : Inj N), POK Q cx call ρ k → SRel Q cx β σ σ' → EnvOK β D env env' →
       RRel Q cx β AEq (evalSegs call ρ k env x acc σ) (evalSegs call ρ k env' y acc σ')
 
 variable {Q : QRel} {cx : Cx} {D : List DName}
@@ -71,12 +73,16 @@ theorem RRel.okOne {N : NumOps} {β : Inj N} {v v' : Val N} {σ σ' : State N} (
 
 /-! ### exact steps on the left -/
 
-theorem SoundE.step {a m b} (h : EqE a m) (ih : SoundE Q cx D m b) : SoundE Q cx D a b := by
+theorem SoundE.step {a m b} (h : LeE cx.upto a m) (ih : SoundE Q cx D m b) : SoundE Q cx D a b := by
   intro N call ρ k env env' σ σ' β hp hs he
-  rw [← h N call ρ k env σ]; exact ih N call ρ k env env' σ σ' β hp hs he
-theorem SoundT.step {a m b} (h : EqT a m) (ih : SoundT Q cx D m b) : SoundT Q cx D a b := by
+  cases h N call ρ k env σ with
+  | inl h => rw [h.2]; exact RRel.timeout_left h.1 _
+  | inr h => rw [← h]; exact ih N call ρ k env env' σ σ' β hp hs he
+theorem SoundT.step {a m b} (h : LeT cx.upto a m) (ih : SoundT Q cx D m b) : SoundT Q cx D a b := by
   intro N call ρ k env env' σ σ' β hp hs he
-  rw [← h N call ρ k env σ]; exact ih N call ρ k env env' σ σ' β hp hs he
+  cases h N call ρ k env σ with
+  | inl h => rw [h.2]; exact RRel.timeout_left h.1 _
+  | inr h => rw [← h]; exact ih N call ρ k env env' σ σ' β hp hs he
 
 /-! ### expressions -/
 
